@@ -178,6 +178,21 @@ ExtractStimuli ==
      i \in {<<0>>, <<2>>, <<1, 0>>, <<0, 1, 2>>, <<3>>, <<0, 3>>, <<0 - 1>>, <<0, 0 - 1>>, <<0 - 3>>, <<0 - 4, 1>>, <<>>, <<0, 1, 2, 0>>},
      f \in {"list", "tuple", "array"}}
   \cup {St("k_extract", [R |-> 3, idx |-> <<i>>, form |-> "int"], "?") : i \in {0, 2, 3, 0 - 1, 0 - 3}}
+\* ---- families added after the ninth seeding round (side observations)
+SptenmatSetStimuli ==
+  {St("sptenmat_setitem", [nrows |-> 2, ncols |-> 4, r |-> r, c |-> c], "?") : r \in {0, 1, 2, 10, 0 - 1}, c \in {0, 3, 4, 10, 0 - 1}}
+MttkrpsStimuli ==
+  {St("mttkrps_factors", [shape |-> <<2, 3, 2>>, rows |-> rw, cols |-> cl], "?") :
+     rw \in {<<2, 3, 2>>, <<2, 4, 2>>, <<2, 3, 1>>, <<3, 3, 2>>, <<2, 3>>, <<2, 3, 2, 2>>},
+     cl \in {<<2, 2, 2, 2>>, <<2, 3, 2, 2>>, <<1, 1, 1, 1>>}}
+SetBlockStimuli ==
+  {St("setitem_block", [shape |-> <<2, 2>>, hi |-> h, vshape |-> v], "?") :
+     \* (value shapes that numpy could broadcast into the region - a row into a block - are left out: dense assignment
+     \* follows numpy there, DESIGN 12.9)
+     h \in {<<2, 2>>, <<3, 3>>, <<2, 4>>}, v \in {<<2, 2>>, <<3, 3>>, <<2, 4>>, <<2, 3>>, <<3, 2>>}}
+FixsignsStimuli ==
+  {St("fixsigns_other", [rows |-> <<2, 3, 2>>, R |-> 2, orows |-> orw, oR |-> r], "?") :
+     orw \in {<<2, 3, 2>>, <<3, 3, 2>>, <<2, 3, 4>>, <<2, 3>>}, r \in {1, 2, 3}}
 \* the weights pseudo-mode -1 together with factor modes: data short by less than one block, or sufficient
 UpdateWeightsStimuli ==
   {St("k_update", [rows |-> <<2, 3, 2>>, R |-> 2, modes |-> m, datalen |-> d],
@@ -207,7 +222,8 @@ SymGroupStimuli ==
      g \in {<< <<<<0, 1>>, <<2, 3>>>>, "ok" >>, << <<<<0, 1>>, <<2, 3>>, <<4, 0>>>>, "groups_disjoint" >>,
             << <<<<0, 1>>, <<1, 2>>>>, "groups_disjoint" >>, << <<<<0>>, <<1>>, <<0>>>>, "groups_disjoint" >>,
             << <<<<0, 4>>, <<1, 3>>, <<3, 2>>>>, "groups_disjoint" >>, << <<<<0, 1, 2>>>>, "ok" >>,
-            << <<<<0, 0>>>>, "groups_disjoint" >>, << <<<<0, 5>>>>, "modes_in_range" >>, << <<<<3, 1>>, <<4, 2>>>>, "ok" >>},
+            << <<<<0, 0>>>>, "groups_disjoint" >>, << <<<<0, 5>>>>, "modes_in_range" >>, << <<<<0 - 1, 0>>>>, "modes_in_range" >>,
+            << <<<<0, 1>>, <<0 - 2, 3>>>>, "modes_in_range" >>, << <<<<3, 1>>, <<4, 2>>>>, "ok" >>},
      v \in {0, 1}}
 
 NvecsArgStimuli ==
@@ -223,7 +239,8 @@ All ==
   \cup (IF "more" \in Fams THEN ArrangeStimuli \cup UpdateStimuli \cup SpReshapeStimuli \cup CtorTenmatStimuli
                                \cup CtorSptenmatStimuli \cup CtorSpNegStimuli ELSE {})
   \cup (IF "args" \in Fams THEN ModeArgStimuli \cup ExtractStimuli \cup UpdateRepStimuli \cup UpdateWeightsStimuli \cup ReconstructStimuli \cup TuckerRankStimuli
-                               \cup OptdimsStimuli \cup CtorSptenmatNegStimuli \cup SymGroupStimuli \cup NvecsArgStimuli ELSE {})
+                               \cup OptdimsStimuli \cup CtorSptenmatNegStimuli \cup SymGroupStimuli \cup NvecsArgStimuli
+                               \cup SptenmatSetStimuli \cup MttkrpsStimuli \cup SetBlockStimuli \cup FixsignsStimuli ELSE {})
 
 \* keep the well-formed requests and those violating exactly one clause
 \* keep the well-formed requests and those violating at most two clauses (single-clause violations
